@@ -100,13 +100,12 @@ fn serialize_list(arr: &[Primitive], out: &mut impl io::Write) -> Result<()> {
 
 pub fn serialize_name(s: &str, out: &mut impl io::Write) -> Result<()> {
     write!(out, "/")?;
-    for b in s.chars() {
+    for &b in s.as_bytes() {
         match b {
-            '\\' | '(' | ')' => write!(out, r"\")?,
-            c if c > '~' => panic!("only ASCII"),
-            _ => ()
+            b'#' | b'%' | b'(' | b')' | b'/' | b'<' | b'>' | b'[' | b']' | b'{' | b'}' => write!(out, "#{:02x}", b)?,
+            b'!' ..= b'~' => out.write_all(&[b])?,
+            _ => write!(out, "#{:02x}", b)?
         }
-        write!(out, "{}", b)?;
     }
     Ok(())
 }
